@@ -153,6 +153,19 @@ pub assume_specification<P: std::str::pattern::Pattern> [str::starts_with] (s: &
     ensures r == pat_prefix(p, s@);
 pub assume_specification [std::string::String::with_capacity] (n: usize) -> (r: std::string::String)
     ensures r@ == Seq::<char>::empty();
+pub uninterp spec fn unicode_alphabetic(c: char) -> bool;
+pub uninterp spec fn unicode_alphanumeric(c: char) -> bool;
+pub uninterp spec fn unicode_control(c: char) -> bool;
+pub assume_specification [char::is_alphabetic] (c: char) -> (r: bool) ensures r == unicode_alphabetic(c);
+pub assume_specification [char::is_alphanumeric] (c: char) -> (r: bool) ensures r == unicode_alphanumeric(c);
+pub assume_specification [char::is_control] (c: char) -> (r: bool) ensures r == unicode_control(c);
+pub assume_specification [char::is_ascii_alphanumeric] (c: &char) -> (r: bool)
+    ensures r == (('a' <= *c && *c <= 'z') || ('A' <= *c && *c <= 'Z') || ('0' <= *c && *c <= '9'));
+pub assume_specification [char::is_ascii_digit] (c: &char) -> (r: bool) ensures r == ('0' <= *c && *c <= '9');
+pub assume_specification [char::is_ascii_whitespace] (c: &char) -> (r: bool)
+    ensures r == (*c == ' ' || *c == '\t' || *c == '\n' || *c == '\x0c' || *c == '\r');
+pub assume_specification [char::is_ascii_control] (c: &char) -> (r: bool) ensures r == ((*c as u32) < 0x20 || *c == '\x7f');
+pub assume_specification [char::is_ascii] (c: &char) -> (r: bool) ensures r == ((*c as u32) < 0x80);
 pub assume_specification [char::is_ascii_alphabetic] (c: &char) -> (r: bool)
     ensures r == (('a' <= *c && *c <= 'z') || ('A' <= *c && *c <= 'Z'));
 
